@@ -2047,6 +2047,10 @@ impl Element {
             // which does not include the new file
             if self.element_type().splittable() != 0 {
                 for se in self.sub_elements() {
+                    if se.element_name() == ElementName::ShortName {
+                        // the SHORT-NAME is needed in every file that contains the element, it is never restricted
+                        continue;
+                    }
                     if let Some(mut subelem) = se.0.try_write() {
                         if subelem.file_membership.is_empty() {
                             subelem.file_membership.clone_from(&current_fileset);
